@@ -167,6 +167,12 @@ func refMatch(fs *FlowSpec, probes []*sim.ProbeRec, pkt []byte) Match {
 					break
 				}
 			}
+			// the probe is an echo request: a quoted message of another kind (timestamp, information,
+			// address mask, redirect, ...) is not a quote of it, whatever its bytes 4..8 hold. An echo
+			// *reply* in the quote shares the header layout and is left as don't-care.
+			if q.Proto == icmpProto && q.Payload[0] != echoType && q.Payload[0] != erType {
+				return Match{}
+			}
 			formOK = isTE && l4.ICMPCode == 0 && q.Proto == icmpProto && q.Payload[0] == echoType && q.Payload[1] == 0
 		case "udp":
 			sport := binary.BigEndian.Uint16(q.Payload[0:2])
